@@ -20,6 +20,7 @@ import (
 	"io"
 	"net"
 	"strconv"
+	"sync"
 
 	"github.com/cybergarage/go-logger/log"
 	"github.com/cybergarage/go-redis/redis/auth"
@@ -41,6 +42,7 @@ type Server struct {
 	systemCommandHandler SystemCommandHandler
 	userCommandHandler   UserCommandHandler
 	commandExecutors     Executors
+	commandMutex         sync.Mutex
 }
 
 // NewServer returns a new server instance.
@@ -58,6 +60,7 @@ func NewServer() *Server {
 		systemCommandHandler: nil,
 		userCommandHandler:   nil,
 		commandExecutors:     Executors{},
+		commandMutex:         sync.Mutex{},
 	}
 	server.SetPort(DefaultPort)
 	server.registerCoreExecutors()
@@ -299,7 +302,12 @@ func (server *Server) receive(conn net.Conn, tlsState *tls.ConnectionState) erro
 		var resMsg *Message
 		var reqErr error
 
+		// Commands are executed one at a time, as Redis does, so that every
+		// command - including the ones composed from several handler
+		// operations - is atomic with respect to the other connections.
+		server.commandMutex.Lock()
 		resMsg, reqErr = server.handleMessage(handlerConn, reqMsg)
+		server.commandMutex.Unlock()
 		if reqErr != nil {
 			if !errors.Is(reqErr, ErrQuit) {
 				resMsg = NewErrorMessage(reqErr)
